@@ -96,6 +96,11 @@ impl Qcow2IoOps for Qcow2IoTokio {
 
     #[cfg(target_os = "linux")]
     async fn fallocate(&self, offset: u64, len: usize, flags: u32) -> Qcow2Result<()> {
+        // tokio::fs::File completes a write in the background: wait for it,
+        // otherwise the hole is punched (on the raw fd) before an earlier write
+        // to the same range lands, and that write then undoes the punch
+        let mut file = self.file.lock().await;
+        file.flush().await?;
         crate::ops::linux_punch_hole(self.fd, offset, len, flags)
     }
 
